@@ -54,6 +54,7 @@ func (w *World) begin(t *Task, inj *Injection) *ReqRecord {
 		rec.Inject = &c
 	}
 	t.rec = rec
+	t.mapCtr = map[int]int{}
 	t.ticks = 0
 	t.exhausted = false
 	t.fuel = DefaultFuel
